@@ -28,3 +28,32 @@ package loader
 //@   requires l != nil && *l != nil
 //@   modifies *(*l)
 //@   at call:Put assert loaderCleared(*l)
+
+// ---- allOf: conflicting additionalProperties are refused, not merged (C07) ----------------------------------------
+// extendWith is checked for one thing: it calls AdditionalProperties.IsEqual only on two constraints of the same mode
+// (obligation pre:IsEqual at the call), i.e. constraints of different modes never pass as "equal".
+
+//@ func (*allOfConstraintCompiler).processType
+//@   property C07
+//@   may_panic
+//@   modifies anything()
+
+//@ func (*allOfConstraintCompiler).processNode
+//@   property C07
+//@   may_panic
+//@   modifies anything()
+//@   loop#1 invariant true
+
+//@ func (*allOfConstraintCompiler).extend
+//@   property C07
+//@   may_panic
+//@   modifies anything()
+//@   loop#1 invariant true
+
+//@ func (*allOfConstraintCompiler).extendWith
+//@   property C07
+//@   may_panic
+//@   modifies anything()
+//@   loop#1 invariant true
+//@   loop#2 invariant true
+//@   loop#3 invariant true
